@@ -76,14 +76,14 @@ class Report:
 
 def run_go_functions(rep, spec, contracts, word=64, natives=(), extra_pkgs=(), verbose=False):
     from .goverify import GoVerifier
-    keys = [c.key for c in contracts]
+    keys = [c.key.split('#lit')[0] for c in contracts]
     inl = set()
     for c in contracts:
         for cl in c.get('inline'):
             inl |= set(cl.text.replace(',', ' ').split())
     pkgs = sorted({pkg_of_key(k) for k in list(keys) + list(inl) if not k.startswith(('natives:', 'goroot:'))} | set(extra_pkgs))
     natives = sorted(set(natives) | {pkg_of_key(k) for k in list(keys) + list(inl) if k.startswith(('natives:', 'goroot:'))})
-    allkeys = {c.key for c in spec.contracts if c.kind == 'func' and (pkg_of_key(c.key) in pkgs if not c.key.startswith(('natives:', 'goroot:')) else pkg_of_key(c.key) in natives)}
+    allkeys = {c.key.split('#lit')[0] for c in spec.contracts if c.kind == 'func' and (pkg_of_key(c.key) in pkgs if not c.key.startswith(('natives:', 'goroot:')) else pkg_of_key(c.key) in natives)}
     gl = set()
     for c in contracts:
         for cl in c.get('initval'):
